@@ -18,7 +18,7 @@ ASSUMPTIONS = ["harness native gate set and its matrices (vf/gateset_sig.py)", "
                "programs rejected by the emulator with JaqalError are judged by C12/C13/C14, not here"]
 TIERS = {"quick": {"shards": 8, "budget_s": 70}, "thorough": {"shards": 16, "budget_s": 420}}
 REQUIRE = {"busy-gates-with-unitary-inserted": 300, "keyword-calls-in-another-order": 500, "gate-set-variant:B": 100, "gate-set-variant:A": 100, "states-compared": 300, "gate:2q-asym": 50, "gate:3q": 20, "via-alias": 100, "via-macro": 50, "override-used": 30,
-           "loop-in-section": 30, "probe:basis": 50}
+           "loop-in-section": 30, "probe:basis": 50, "probe:moved-alias": 100}
 ATOL = 1e-9
 
 
@@ -209,11 +209,36 @@ def basis_probe(rng, maxn):
     return ("circuit",) + tuple(g.header) + tuple(body)
 
 
+def moved_alias_probe(rng, maxn):
+    """X-only program whose aliases are bounded by lets that the override dictionary MOVES; the aliases are used
+    directly at top level, inside macros that mention no constant at all, through an index parameter and through a
+    second-level alias.  Returns (program, overrides)."""
+    n = rng.randint(3, max(3, maxn))
+    step = rng.choice([1, 1, 2]) if n >= 4 else 1
+    starts = [v for v in range(0, n - 1) if len(range(v, n, step)) >= 2]
+    s0, s1 = rng.sample(starts, 2) if len(starts) >= 2 else (starts[0], starts[0])
+    hdr = [("let", "s", s0), ("let", "st", step), ("register", "q", n), ("map", "a", "q", "s", None, "st"), ("map", "b", "a", 1, None, None),
+           ("map", "one", "a", 1)]
+    macros = [("macro", "direct", ("sequential_block", ("gate", "X", ("array_item", "a", 0)))),
+              ("macro", "second", ("sequential_block", ("gate", "X", ("array_item", "b", 0)))),
+              ("macro", "single", ("sequential_block", ("gate", "X", "one"))),
+              ("macro", "pick", "k", ("sequential_block", ("gate", "X", ("array_item", "a", "k"))))]
+    calls = [("gate", "direct"), ("gate", "second"), ("gate", "single"), ("gate", "pick", 1), ("gate", "X", ("array_item", "a", 0))]
+    rng.shuffle(calls)
+    body = []
+    for c in calls[:rng.randint(2, 5)]:
+        body += [("gate", "prepare_all"), c, ("gate", "measure_all")]
+    return ("circuit",) + tuple(hdr) + tuple(macros) + tuple(body), {"s": s1}
+
+
 def make_override(rng, prog):
     ov = {}
     for s in prog[1:]:
         if s[0] == "let" and isinstance(s[2], float) and rng.random() < 0.6:
             ov[s[1]] = rng.choice([0.0, 1.25, -2.5, 3.141592653589793, rng.uniform(-6, 6)])
+        elif s[0] == "let" and isinstance(s[2], int) and 0 <= s[2] <= 4 and rng.random() < 0.4:
+            # constants used as index / alias bound / count: overrides that make a reference invalid are skipped by the judge
+            ov[s[1]] = rng.randint(0, 3)
     return ov
 
 
@@ -228,7 +253,10 @@ def shard(ctx):
         i += 1
         rng = ctx.rng
         r = rng.random()
-        if r < 0.2:
+        if r < 0.06:
+            mp, mov = moved_alias_probe(rng, maxn)
+            case = {"prog": mp, "ov": mov, "probe": "moved-alias"}
+        elif r < 0.2:
             case = {"prog": basis_probe(rng, maxn), "probe": "basis"}
         else:
             size = rng.choice([1, 2, 2, 3, 3, 4, 4, 5, maxn])
